@@ -273,6 +273,10 @@ def doCall (st : St) (t : Nat) (ws : List String) : Except String (St × List St
     let blockingForm := form ∈ ["send", "recv", "send_batch", "recv_batch", "send_batch_mut", "recv_batch_mut"]
     if isAsync && blockingForm then
       .ok ({ st with skip := some "async-form" }, ["skipped:async-form"])
+    else if form == "recv_timeout" then
+      -- the timed receive with a real timeout parks in `park_timeout` (ring_buffer.rs `recv_timeout`), which the
+      -- scheduler can end by firing the timeout: not in the B model (its `tmo` kind is `recv_timeout(0)`)
+      .ok ({ st with skip := some "recv_timeout" }, ["skipped:recv_timeout"])
     else
     match hk, form with
     | .sender, "send" => callModel st t (.send (natTok (ws.getD 2 ""))) { base with items := [natTok (ws.getD 2 "")] }
